@@ -321,21 +321,21 @@ func execC17(sc *Scenario, env *Env) *Result {
 				}
 			}
 			if onStarted != nil && sc.Params["nodefault"] == "kill" {
-				if _, kerr := runChild(cmd, 2*time.Minute, onStarted); kerr == errChildTimeout {
+				if _, kerr := runChild(cmd, 40*time.Second, onStarted); kerr == errChildTimeout {
 					viol("real-binary", "node-did-not-terminate:real-binary", "killed job did not end")
 				}
 				res.add("fault.node-killed-and-range-started-again", 1)
 				cmd = exec.Command(bin, argv...)
 				onStarted = nil
 			}
-			outS, err := runChild(cmd, 2*time.Minute, onStarted)
+			outS, err := runChild(cmd, 40*time.Second, onStarted)
 			if sc.Params["nodefault"] == "rewrite" && onStarted != nil {
 				os.WriteFile(bf, []byte(content), 0o644) // the next job gets the original file
 				res.add("fault.batch-file-rewritten-in-place-during-the-job", 1)
 			}
 			out := []byte(outS)
 			if err == errChildTimeout {
-				viol("real-binary", "node-did-not-terminate:real-binary", fmt.Sprintf("hermes2go %s was still running after 2 minutes (its lines fail within milliseconds)", strings.Join(argv, " ")))
+				viol("real-binary", "node-did-not-terminate:real-binary", fmt.Sprintf("hermes2go %s was still running after 40 s (its lines fail within milliseconds)", strings.Join(argv, " ")))
 				ok = false
 				break
 			}
